@@ -10,7 +10,8 @@ SPEC = dict(
          'intended condition breaks) on every base of a 48-element base family; (pair) every pair of catalogue mutations; (byte) every offset x '
          '{^01,^80,=00,=ff} of serialized bases, re-read by the strict reference parser. The oracle is the reference evaluator of INT-01..INT-17 '
          '(harness/ref/ref_sig.c) applied to the same signature. Distinct = distinct case name; non-trivial = the library verdict was compared '
-         'with the reference verdict (byte mutations the reference parser does not understand are executed for memory safety only and not counted).',
+         'with the reference verdict (byte mutations the reference parser does not understand are executed for memory safety only and not counted). '
+         'Further: every verdict is repeated with admissible input levels and in a long-lived verification context; RFC3161 algorithm ids beyond 32 bits; part builder (KSI_SignatureBuilder closed again after a refused close with changed components).',
     bounds=dict(
         quick='f2: 1440 bases; f1: chain shapes {1},{2},{1,1},{2,1},{1,2} links with 16 descriptors per link; single: 48 bases x 34 mutations; pairs: 8 bases x 561 pairs; byte: 2 bases x every offset x 4 operators',
         thorough='f1: shapes up to {2,2} and {1,1,1} with 24 descriptors per link; pairs on all 48 bases; byte mutations on 7 bases'),
